@@ -256,6 +256,7 @@ fn run_call(c: &Call) -> Res {
                 let _ = t.update_hashed_key(77, 1);
                 let _ = t.fill_sample(vec![]);
                 let _ = t.fill_sample(vec![(1, 1), (2, 2)]);
+                let _ = t.fill_sample(Vec::with_capacity(3));
                 let _ = t.room_left(10);
                 let _ = t.remove(&1);
                 let _ = t.remove_hashed_key(12345);
@@ -463,6 +464,10 @@ pub fn grid() -> Vec<Call> {
                 g.push(Call::new("TinyLFU::new", &[s, smp], &[fp]));
                 g.push(Call::new("TinyLFUBuilder", &[s, smp], &[fp]));
             }
+            g.push(Call::new("SampledLFU", &[s * 250_000, smp], &[]));
+        }
+        // a SampledLFU allocates nothing for its sample size: any usize is a size that fits
+        for &smp in &[usize::MAX, usize::MAX / 2, (isize::MAX as usize) + 1, 1usize << 40, (isize::MAX as usize) / 8] {
             g.push(Call::new("SampledLFU", &[s * 250_000, smp], &[]));
         }
     }
